@@ -280,6 +280,34 @@ func runC12(r *ev.Recorder) {
 	})
 	r.Count("byte_strings_len_le_2", 1+256+65536)
 
+	// string, rune and byte literals appended to clones of one prefix (prefix lengths 1..12, so with
+	// and without spare capacity), all built before any is rendered
+	for n := 1; n <= 12; n++ {
+		prefix := jen.Id("p0")
+		head := "p0"
+		for i := 1; i < n; i++ {
+			prefix.Dot(fmt.Sprintf("p%d", i))
+			head += fmt.Sprintf(" . p%d", i)
+		}
+		strs := []string{"one", "two", "a\"b", "`", "\x00\xff", ""}
+		var sts []*jen.Statement
+		var wants []string
+		for _, v := range strs {
+			sts = append(sts, prefix.Clone().Op("=").Lit(v))
+			wants = append(wants, head+" = "+jh.Raw(jen.Lit(v)).Out)
+		}
+		sts = append(sts, prefix.Clone().Op("=").LitRune('x'), prefix.Clone().Op("=").LitByte(7))
+		wants = append(wants, head+" = "+jh.Raw(jen.LitRune('x')).Out, head+" = "+jh.Raw(jen.LitByte(7)).Out)
+		for i, st := range sts {
+			got := jh.Raw(st)
+			r.Eval(1)
+			r.Distinct(fmt.Sprintf("clone-prefix-%d-%d", n, i))
+			if !got.OK() || got.Out != wants[i] {
+				r.Violate(ev.Violation{Signature: "c12:literal-on-clone", What: fmt.Sprintf("prefix of %d items cloned %d times, a literal appended to each: clone %d renders %q, want %q", n, len(sts), i, got, wants[i]), Case: ev.JSON(c12Case{Kind: "clone"})})
+			}
+		}
+	}
+
 	// long strings: cycling through all 256 byte values / the units, lengths up to 1 MiB
 	for _, n := range []int{255, 256, 257, 4095, 4096, 65535, 65536, 65537, 1 << 20} {
 		for kind := 0; kind < 3; kind++ {
